@@ -278,7 +278,7 @@ func fieldFault(t *sim.T, m *gtfsrt.FeedMessage) string {
 		}
 	}
 	s := func(v string) *string { return &v }
-	switch t.Choose(23) {
+	switch t.Choose(25) {
 	case 0:
 		if len(tus) == 0 {
 			return ""
@@ -516,6 +516,57 @@ func fieldFault(t *sim.T, m *gtfsrt.FeedMessage) string {
 	case 21:
 		m.Header = nil
 		return "header removed (required)"
+	case 23:
+		// schedule relationships: every (or some) stop time update SKIPPED / NO_DATA, the trip itself CANCELED / ADDED
+		if len(tus) == 0 {
+			return ""
+		}
+		tu := tus[t.Choose(len(tus))]
+		all := t.Chance(1, 2)
+		for _, u := range tu.StopTimeUpdate {
+			if all || t.Chance(1, 2) {
+				sr := []gtfsrt.TripUpdate_StopTimeUpdate_ScheduleRelationship{gtfsrt.TripUpdate_StopTimeUpdate_SKIPPED, gtfsrt.TripUpdate_StopTimeUpdate_NO_DATA, gtfsrt.TripUpdate_StopTimeUpdate_ScheduleRelationship(7)}[t.Choose(3)]
+				u.ScheduleRelationship = &sr
+				if t.Chance(1, 2) {
+					u.Arrival, u.Departure = nil, nil
+				}
+			}
+		}
+		if tu.Trip != nil && t.Chance(1, 2) {
+			sr := []gtfsrt.TripDescriptor_ScheduleRelationship{gtfsrt.TripDescriptor_CANCELED, gtfsrt.TripDescriptor_ADDED, gtfsrt.TripDescriptor_UNSCHEDULED}[t.Choose(3)]
+			tu.Trip.ScheduleRelationship = &sr
+		}
+		if tu.Trip != nil && t.Chance(1, 2) {
+			// make it an unassigned NYCT trip so that the staleness filter looks at these stops
+			proto.SetExtension(tu.Trip, gtfsrt.E_NyctTripDescriptor, &gtfsrt.NyctTripDescriptor{IsAssigned: func() *bool { b := false; return &b }()})
+			tu.Vehicle = nil
+		}
+		return "stop time updates SKIPPED / NO_DATA, trip CANCELED / ADDED"
+	case 24:
+		// informed entities that carry a non-identifying trip descriptor together with other selectors
+		if len(alerts) == 0 {
+			return ""
+		}
+		a := alerts[t.Choose(len(alerts))].Alert
+		for n := t.Range(1, 3); n > 0; n-- {
+			es := &gtfsrt.EntitySelector{Trip: &gtfsrt.TripDescriptor{RouteId: s([]string{"M15", "B41", ""}[t.Choose(3)])}}
+			switch t.Choose(4) {
+			case 0:
+				es.StopId = s("S1")
+			case 1:
+				es.AgencyId = s("MTA")
+			case 2:
+				rt := int32(3)
+				es.RouteType = &rt
+			case 3:
+				es.RouteId = s("Q10")
+			}
+			if t.Chance(1, 2) {
+				es.Trip.DirectionId = pu32c(uint32(t.Choose(2)))
+			}
+			a.InformedEntity = append(a.InformedEntity, es)
+		}
+		return "selectors with a route-only trip descriptor plus a stop / agency / route type / other route"
 	case 22:
 		// a long trip whose stop time updates carry no stop id and no track (stops identified by sequence only)
 		if len(tus) == 0 {
@@ -549,6 +600,8 @@ func fieldFault(t *sim.T, m *gtfsrt.FeedMessage) string {
 	}
 	return ""
 }
+
+func pu32c(v uint32) *uint32 { return &v }
 
 // grammarString concatenates up to maxN pieces (possibly none).
 func grammarString(t *sim.T, pieces []string, maxN int) string {
